@@ -81,7 +81,7 @@ def _expand(spec_factory, items):
     return st, out
 
 
-def bfs(spec_factory, depth, seed=0, jobs=1, st=None, max_states=None):
+def bfs(spec_factory, depth, seed=0, jobs=1, st=None, max_states=None, collect=None):
     """Breadth-first search to `depth` (or to the fixpoint if the frontier empties first).
     Returns (stats, info)."""
     st = st if st is not None else Stats()
@@ -117,6 +117,8 @@ def bfs(spec_factory, depth, seed=0, jobs=1, st=None, max_states=None):
                 seen[k] = True
                 st.count('states')
                 nxt.append((root, hist))
+                if collect is not None:
+                    collect.append((root, hist))
                 if len(hist) <= 6 and len(st.samples) < 5 and len(hist) >= min(3, depth):
                     st.samples.append({'root': root, 'history': hist})
         frontier = nxt
